@@ -248,6 +248,30 @@ theorem einsum_accesses_inbounds (descrs : List (List EAxis)) (nout : Nat)
       acc.ok = true ∧ acc.affine = true :=
   einsum_accesses ⟨hlen, hne, hwf, hbc, helem, hred, hi⟩
 
+/-! ## advanced indexing -/
+
+/-- `map_(non_)contiguous_advanced_index`, WITHOUT any assumption on the values
+    in the index arrays (C11 excludes data-dependent indices, not the rest): the
+    expression is `in0[ix]`, whose accesses are `accessesList env ix` followed by
+    the access of `in0` at `evalList env ix`.  Every access made by the index
+    expressions — the reads of the index arrays through their broadcast
+    subscripts — is affine and in bounds; and the components of the index into
+    `in0` that come from integers and slices are integers within their axes. -/
+theorem advindex_accesses_affine_inbounds (contig : Bool) (B : Shape) (first last : Nat)
+    (ixs : List RAIdx) (a : Arr Val) (in0 : String) (names : List String) (i : Idx)
+    (hva : Lower.advValidAffine ixs a.shape)
+    (hB : ∀ x ∈ Lower.arrsOf ixs, Raise.Bcastable x.shape B)
+    (hnd : (in0 :: names).Nodup) (hn : names.length = (Lower.arrsOf ixs).length)
+    (hs : contig = true → ∃ pre blk post, AdvSeg ixs pre blk post first last)
+    (hi : inB (Spec.advIndex contig B first last ixs a).shape i = true) :
+    ∃ ix, Lower.advIndexWith contig first last in0 names B (Lower.normAIdx a.shape ixs) a.shape
+        = .sub in0 ix ∧
+      (∀ acc ∈ accessesList (idxEnv i (advBinds in0 names a (Lower.arrsOf ixs))) ix,
+        acc.ok = true ∧ acc.affine = true) ∧
+      Lower.affinePartsOK ixs a.shape
+        (evalList (idxEnv i (advBinds in0 names a (Lower.arrsOf ixs))) ix) :=
+  advIndexWith_accesses ⟨hva, hB, hnd, hn, hi⟩ hs
+
 /-! ## non-vacuity: the hypotheses are those of C02 (instances there); here the
     access lists of concrete instances, computed -/
 
@@ -261,6 +285,13 @@ example : (accesses (idxEnv [1, 4] (Lower.inBinds [exArr, exArr3])) (Lower.conca
 example : ((Lower.reshape .C [2, 3] [3, 2]).map fun e =>
     (accesses (idxEnv [2, 1] [("_in0", exArr)]) e).map (fun acc => (acc.name, acc.idx, acc.ok)))
       = some [("_in0", [.i 1, .i 2], true)] := by decide
+-- advanced index `x3[[0,-1], ::2, [1,-2]]` at output [1, 1]: two affine in-bounds reads of the
+-- index arrays, then the data-dependent read of `in`
+example : ((Lower.advIndex false (Lower.normAIdx [3, 4, 2] exAdvN) [3, 4, 2]).map fun e =>
+      (accesses (idxEnv [1, 1] (advBinds "in" ["in_0", "in_1"] exX342 [exI2a, exI2b])) e).map
+        (fun acc => (acc.name, acc.idx, acc.affine, acc.ok)))
+    = some [("in_0", [.i 1], true, true), ("in_1", [.i 1], true, true),
+            ("in", [.i 2, .i 2, .i 0], false, true)] := by decide
 -- einsum `ij,jk->ik` at output [1, 2]: 3 iterations × 2 operands = 6 accesses, all in bounds
 example : (accesses (idxEnv [1, 2] (Lower.inBinds [exM23, exM34]))
       (Lower.einsum (Lower.einsumDescrs ["ij".toList, "jk".toList] "ik".toList) [[2, 3], [3, 4]])).map
